@@ -639,7 +639,8 @@ func (m *RpcServer) ControlEnvironment(cxt context.Context, req *pb.ControlEnvir
 			Errorf("transition '%s' failed, transitioning into ERROR.", req.GetType().String())
 		// keep the error of the requested transition: it is what the caller must get back
 		goErrorErr := env.TryTransition(environment.NewGoErrorTransition(m.state.taskman))
-		if goErrorErr != nil {
+		if goErrorErr != nil && env.CurrentState() != "DONE" {
+			// DONE is terminal: a request that was waiting while the environment was being torn down must not revive it
 			log.WithField("partition", env.Id()).Warnf("could not complete requested GO_ERROR transition, forcing move to ERROR: %s", goErrorErr.Error())
 			env.Sm.SetState("ERROR")
 		}
